@@ -42,6 +42,9 @@ def parts(v, depth=0):
         psi = v.psi.ket if hasattr(v.psi, "ket") else v.psi
         for kk, tt in parts(psi, depth + 1).items():
             out["psi" + kk] = tt
+    elif type(v).__name__ == "Worker" and hasattr(v, "psi"):      # stepped dmrg_/tdvp_ worker (sim/e2w.py): the state it evolves in place
+        for kk, tt in parts(v.psi, depth + 1).items():
+            out["psi." + kk] = tt
     elif hasattr(v, "fields") and callable(v.fields):       # environment dataclasses
         for f in v.fields():
             t = getattr(v, f)
@@ -59,4 +62,6 @@ def meta_of(v):
         return [type(v).__name__, list(v.dims), str(v.boundary)]
     if isinstance(v, (fpeps.EnvBoundaryMPS, fpeps.EnvCTM, fpeps.EnvBP)):
         return [type(v).__name__, list(v.dims)]
+    if type(v).__name__ == "Worker" and hasattr(v, "psi"):
+        return ["Worker", v.kind, v.steps]
     return None
